@@ -39,7 +39,9 @@ def vary(lf, v, rng, k, cfg=None):
             # the secret is spelled like something the tool itself emits: a pseudonym, a placeholder of another class, the replacement text
             repl = cfg.repl() if cfg is not None else "REDACTED"
             return ('str', rng.choice([repl + "_0123456789abcdef", repl + "_%016x" % rng.getrandbits(64), repl + "_0123456789abcdef." + repl + "_fedcba9876543210",
-                                       repl, repl + "-x", "1970-01-01T00:00:00.000Z", "0" * 24, "AAAAAAAAAAAAAAAAAAA=", "255.255.255.255:65535"]))
+                                       repl, repl + "-x", "1970-01-01T00:00:00.000Z", "0" * 24, "AAAAAAAAAAAAAAAAAAA=", "255.255.255.255:65535",
+                                       # ... or like a network address (the run may have --redactIPs on)
+                                       "10.1.2.3", "192.168.0.7:50312", "fe80::1", "[2001:db8::1]:27017"]))
         if under in ("$date", "$oid", "base64"):
             choice = rng.randint(0, 4)
             if choice == 0:
